@@ -658,6 +658,13 @@ def enumerated(tier):
             for frames in (["badstate"], ["state", "badstate", "state2"]):
                 for at in (256 * 6, 256 * 7, 256 * 12):
                     yield {"kind": "late_bad_payload", "noise": noise, "login": login, "frames": frames, "at": at}
+    # one read carrying a long run of complete frames (a device dumping its states), the session ended right afterwards
+    # by the application / by the device's DisconnectRequest at the end of the same read: every frame was delivered
+    for noise in (False, True):
+        for n in (33, 65, 100, 300):
+            run = [{"op": "msg", "type": (26, 25)[k % 2], "payload": {"key": k + 1}, "merge": True} for k in range(n - 1)] + [{"op": "msg", "type": 26, "payload": {"key": n}}]
+            yield {"kind": "history", "noise": noise, "ops": [{"op": "sub", "id": "c0", "types": [26, 25], "script": []}] + run}
+            yield {"kind": "history", "noise": noise, "ops": [{"op": "sub", "id": "c0", "types": [26, 25, 5], "script": []}] + run[:-1] + [{"op": "msg", "type": 26, "payload": {"key": n}, "merge": True}, {"op": "peer", "what": "discreq"}]}
     # several frames in ONE chunk while the client's own disconnect is in flight: each is dispatched, in order
     for noise in (False, True):
         for n in (2, 3, 5):
